@@ -1,10 +1,11 @@
 #!/bin/bash
-# Re-evaluate every seeded change against the quick check of the property it breaks.
+# Re-evaluate every seeded change against the quick check of the property it breaks; where a directory also holds a
+# property-preserving change (benign.diff), the same check must stay silent on it.
 # usage: [VERIF_REPO=<scratch copy of /repo>] tools/seeded_regress.sh   (default: /repo itself, patched and reverted one at a time)
 R=${VERIF_REPO:-/repo}
 cd "$(dirname "$0")/.."
 V=$(pwd)
-pass=0; fail=0
+pass=0; fail=0; bok=0; bbad=0
 for d in seeded/*/; do
   n=$(basename $d)
   prop=$(python3 -c "import json;m=json.load(open('$d/meta.json'));print(m.get('evaluate_with',m['property']))")
@@ -14,6 +15,13 @@ for d in seeded/*/; do
   cls=$(grep -m1 "class=" /tmp/regress_$n.out | sed 's/ detail=.*//')
   echo "$n $prop rc=$rc $cls"
   if [ $rc = 1 ]; then pass=$((pass+1)); else fail=$((fail+1)); fi
+  if [ -f $d/benign.diff ]; then
+    git -C $R apply $V/$d/benign.diff || { echo "$n BENIGN-APPLY-FAILED"; continue; }
+    VERIF_REPO=$R python3 check.py $prop --tier quick > /tmp/regress_b_$n.out 2>&1; rc=$?
+    git -C $R checkout -- .
+    echo "$n benign $prop rc=$rc $(grep -m1 'class=' /tmp/regress_b_$n.out | sed 's/ detail=.*//')"
+    if [ $rc = 0 ]; then bok=$((bok+1)); else bbad=$((bbad+1)); fi
+  fi
 done
 git checkout -- evidence 2>/dev/null; git clean -fdq replays 2>/dev/null
-echo "caught=$pass not-caught=$fail"
+echo "caught=$pass not-caught=$fail benign-silent=$bok benign-alarm=$bbad"
